@@ -290,6 +290,11 @@ impl Sim {
                     .unwrap_or_default();
                 format!("datastore[{}]", key)
             }
+            // concurrent waits for different parts reach a real node in either order: name the part
+            Method::Waitsendpay => {
+                let (_, g, p) = wsp_args(params);
+                format!("waitsendpay[g{}.p{}]", g, p)
+            }
             m => m.name().to_string(),
         };
         if let Some(t) = Self::hash_tag(method, params) {
